@@ -230,8 +230,9 @@ fn produce_image_from_entry(entry: &Entry) -> Result<image::RgbaImage, String> {
     let output_width = content_width.checked_add(offset_x).ok_or_else(too_large)?;
     let output_height = content_height.checked_add(offset_y).ok_or_else(too_large)?;
     // (an image this large cannot be a real texture; refuse instead of trying to allocate it)
+    const MAX_OUTPUT_BYTES: u64 = 4 * 8192 * 8192;
     let output_len = (4 * output_width as u64).checked_mul(output_height as u64)
-        .filter(|&len| len <= i32::MAX as u64).ok_or_else(too_large)?;
+        .filter(|&len| len <= MAX_OUTPUT_BYTES).ok_or_else(too_large)?;
     let output_init_argb = vec![0xFF; output_len as usize];
     let mut output = BgraImage::from_raw(output_width, output_height, output_init_argb).expect("size error?!");
 
